@@ -8,24 +8,11 @@ pub(super) enum Number {
 }
 
 impl Number {
+    /// `None` for a float: where an integer is required, a float is an error.
     pub(super) fn as_integer(&self) -> Option<i32> {
         match self {
             Number::Int(n) => Some(*n),
-            Number::Float(n) => Some(*n as i32),
-        }
-    }
-
-    pub(super) fn as_float(&self) -> Option<f32> {
-        match self {
-            Number::Int(n) => Some(*n as f32),
-            Number::Float(n) => Some(*n),
-        }
-    }
-
-    pub(super) fn is_integer(&self) -> bool {
-        match self {
-            Number::Int(_) => true,
-            Number::Float(_) => false,
+            Number::Float(_) => None,
         }
     }
 }
@@ -56,10 +43,59 @@ impl JsonValue {
     }
 }
 
+/// Maximum nesting of arrays and objects, the same as serde_json's default recursion limit.
+const MAX_DEPTH: usize = 127;
+
+fn is_json_whitespace(c: char) -> bool {
+    matches!(c, ' ' | '\t' | '\n' | '\r')
+}
+
+/// Checks the RFC 8259 number grammar, which is stricter than what `str::parse` accepts.
+fn is_json_number(s: &str) -> bool {
+    fn digits(s: &[u8]) -> usize {
+        s.iter().take_while(|c| c.is_ascii_digit()).count()
+    }
+
+    let mut s = s.as_bytes();
+
+    if let [b'-', rest @ ..] = s {
+        s = rest;
+    }
+
+    // Integer part: a single 0, or digits that do not start with a 0
+    s = match (s.first(), digits(s)) {
+        (_, 0) => return false,
+        (Some(b'0'), _) => &s[1..],
+        (_, n) => &s[n..],
+    };
+
+    if let [b'.', rest @ ..] = s {
+        match digits(rest) {
+            0 => return false,
+            n => s = &rest[n..],
+        }
+    }
+
+    if let [b'e' | b'E', rest @ ..] = s {
+        let rest = match rest {
+            [b'+' | b'-', rest @ ..] => rest,
+            _ => rest,
+        };
+
+        match digits(rest) {
+            0 => return false,
+            n => s = &rest[n..],
+        }
+    }
+
+    s.is_empty()
+}
+
 pub(super) struct JsonTokenizer<'a> {
     json: &'a [u8],
     lookahead: Option<char>,
     skip_whitespaces: bool,
+    depth: usize,
 }
 
 impl<'a> JsonTokenizer<'a> {
@@ -68,6 +104,7 @@ impl<'a> JsonTokenizer<'a> {
             json: s.as_bytes(),
             lookahead: None,
             skip_whitespaces: true,
+            depth: 0,
         }
     }
 
@@ -87,7 +124,7 @@ impl<'a> JsonTokenizer<'a> {
         let c = loop {
             let c = self.read_utf8_char()?;
 
-            if !self.skip_whitespaces || !c.is_whitespace() {
+            if !self.skip_whitespaces || !is_json_whitespace(c) {
                 break c;
             }
         };
@@ -134,7 +171,7 @@ impl<'a> JsonTokenizer<'a> {
     pub(super) fn read_boolean(&mut self) -> io::Result<bool> {
         let string = self.read_until_separator()?;
 
-        match string.trim() {
+        match string.trim_matches(is_json_whitespace) {
             "true" => Ok(true),
             "false" => Ok(false),
             _ => Err(io::Error::new(
@@ -147,7 +184,7 @@ impl<'a> JsonTokenizer<'a> {
     pub(super) fn read_null(&mut self) -> io::Result<()> {
         let string = self.read_until_separator()?;
 
-        if string.trim() == "null" {
+        if string.trim_matches(is_json_whitespace) == "null" {
             Ok(())
         } else {
             Err(io::Error::new(
@@ -159,19 +196,39 @@ impl<'a> JsonTokenizer<'a> {
 
     pub(super) fn read_number(&mut self) -> io::Result<Number> {
         let number_str = self.read_until_separator()?;
-        let number_str = number_str.trim();
+        let number_str = number_str.trim_matches(is_json_whitespace);
 
-        // Check if the number is an integer
-        if let Ok(num) = number_str.parse::<i32>() {
-            return Ok(Number::Int(num));
-        }
-
-        // Convert the accumulated string to a f32
-        match number_str.parse::<f32>() {
-            Ok(num) => Ok(Number::Float(num)),
-            Err(_) => Err(io::Error::new(
+        if !is_json_number(number_str) {
+            return Err(io::Error::new(
                 io::ErrorKind::InvalidData,
                 format!("Invalid number format: '{}'", number_str),
+            ));
+        }
+
+        // Check if the number is an integer
+        if !number_str.contains(['.', 'e', 'E']) {
+            match number_str.parse::<i32>() {
+                // "-0" is a float, as for serde_json
+                Ok(0) if number_str.starts_with('-') => {}
+                Ok(num) => return Ok(Number::Int(num)),
+                // The serde based parser refuses the integers of the 64 bit range that
+                // are out of the 32 bit one, and reads the larger ones as floats.
+                Err(_) if number_str.parse::<i64>().is_ok() => {
+                    return Err(io::Error::new(
+                        io::ErrorKind::InvalidData,
+                        format!("Integer out of the 32 bit range: '{}'", number_str),
+                    ));
+                }
+                Err(_) => {}
+            }
+        }
+
+        // Convert the accumulated string to a f32, through a f64 as the serde based parser does
+        match number_str.parse::<f64>() {
+            Ok(num) if num.is_finite() => Ok(Number::Float(num as f32)),
+            _ => Err(io::Error::new(
+                io::ErrorKind::InvalidData,
+                format!("Number out of range: '{}'", number_str),
             )),
         }
     }
@@ -288,23 +345,71 @@ impl<'a> JsonTokenizer<'a> {
     }
 
     pub(super) fn expect(&mut self, c: char) -> io::Result<()> {
-        while let Ok(c2) = self.read() {
-            if !c2.is_whitespace() {
-                if c2 == c {
-                    return Ok(());
-                } else {
-                    return Err(io::Error::new(
-                        io::ErrorKind::InvalidData,
-                        format!("Expected '{}', found '{}'", c, c2),
-                    ));
-                }
+        let c2 = self.read().map_err(|e| match e.kind() {
+            io::ErrorKind::UnexpectedEof => io::Error::new(
+                io::ErrorKind::UnexpectedEof,
+                format!("Expected '{}', found the end of the document", c),
+            ),
+            _ => e,
+        })?;
+
+        if c2 != c {
+            return Err(io::Error::new(
+                io::ErrorKind::InvalidData,
+                format!("Expected '{}', found '{}'", c, c2),
+            ));
+        }
+
+        match c {
+            '[' | '{' => self.enter(),
+            ']' | '}' => {
+                self.depth = self.depth.saturating_sub(1);
+                Ok(())
+            }
+            _ => Ok(()),
+        }
+    }
+
+    /// Counts the array or object that has just been opened.
+    fn enter(&mut self) -> io::Result<()> {
+        if self.depth >= MAX_DEPTH {
+            return Err(io::Error::new(
+                io::ErrorKind::InvalidData,
+                "Recursion limit exceeded",
+            ));
+        }
+
+        self.depth += 1;
+        Ok(())
+    }
+
+    /// After an element of an array or a member of an object: expects the comma
+    /// that announces another one, unless `close` comes next.
+    pub(super) fn expect_comma_unless(&mut self, close: char) -> io::Result<()> {
+        if self.peek()? != close {
+            self.expect(',')?;
+
+            if self.peek()? == close {
+                return Err(io::Error::new(
+                    io::ErrorKind::InvalidData,
+                    format!("Trailing comma before '{}'", close),
+                ));
             }
         }
 
-        Err(io::Error::new(
-            io::ErrorKind::UnexpectedEof,
-            "Unexpected end of file",
-        ))
+        Ok(())
+    }
+
+    /// Only whitespace may follow the document.
+    pub(super) fn expect_end(&mut self) -> io::Result<()> {
+        match self.peek() {
+            Ok(c) => Err(io::Error::new(
+                io::ErrorKind::InvalidData,
+                format!("Trailing character '{}' after the document", c),
+            )),
+            Err(e) if e.kind() == io::ErrorKind::UnexpectedEof => Ok(()),
+            Err(e) => Err(e),
+        }
     }
 
     pub(super) fn read_obj_key(&mut self) -> io::Result<String> {
@@ -321,19 +426,18 @@ impl<'a> JsonTokenizer<'a> {
                 format!("Expected '{}', found '{}'", expected, s),
             ));
         }
-        let _ = self.expect(':');
-        Ok(())
+        self.expect(':')
     }
 
     pub(super) fn read_value(&mut self) -> io::Result<JsonValue> {
         //self.skip_whitespaces()?;
         match self.peek()? {
             '[' => {
-                self.read()?;
+                self.expect('[')?;
                 Ok(JsonValue::Array)
             }
             '{' => {
-                self.read()?;
+                self.expect('{')?;
                 Ok(JsonValue::Object)
             }
             '"' => {
